@@ -309,7 +309,7 @@ fn verif_c18_enumeration() {
     for before in befores {
         for after in afters {
             for vis in ["", "pub", "pub(crate)", "pub(super)"] {
-                for dir in ["", "sub/"] {
+                for dir in ["", "sub/", "sub/../", "sub/deeper/../../", "../c18fix/", "../../rs/c18fix/", "./", "sub/./"] {
                     run_case(&mut ctx, "surroundings", &opt_default, &full, ", ", true, before, after, vis, dir);
                     run_case(&mut ctx, "surroundings", &[], &[1, 0], ",", false, before, after, vis, dir);
                     run_case(&mut ctx, "surroundings", &[opt_default[7].clone(), opt_default[5].clone()], &[3, 0, 2, 1], " , ", false, before, after, vis, dir);
